@@ -125,12 +125,17 @@ def add_misc(reg):
     reg.externs['secrets.token_bytes'] = token_bytes
 
     def now(ex, st, args, kwargs, fr):
-        t = z3.Int(fresh_name('now'))
-        # E-TIME: time is non-decreasing along a path (ghost 'clock' if tracked)
-        last = st.env.get('$clock')
-        if last is not None:
-            st.assume(t >= last.t)
-        st.env['$clock'] = VInt(t)
-        st.notes.append(('env', 'time.time', 'ret', VInt(t)))
-        return ex.val(VInt(t), st)
+        # E-TIME: ghost `now` is what the first time.time() call of the function under contract
+        # returns; later calls return fresh, non-decreasing values.
+        if not st.ghost.get('$now_used'):
+            if 'now' not in st.ghost:
+                st.ghost['now'] = VInt(z3.Int(fresh_name('now')))
+            st.ghost['$now_used'] = VBool(True)
+            t = st.ghost['now']
+        else:
+            t = VInt(z3.Int(fresh_name('now')))
+            st.assume(t.t >= st.ghost['$last_now'].t)
+        st.ghost['$last_now'] = t
+        st.notes.append(('env', 'time.time', 'ret', t))
+        return ex.val(t, st)
     reg.externs['time.time'] = now
